@@ -134,7 +134,7 @@ m = {
     ],
     "checks": checks,
     "not_applicable": na,
-    "notes": "Eight genuine defects were repaired by fix: commits in /repo (12857a3 C05, adad8bc C15, d8b5a10 C14, afb8dd7 C01, d743b69 C15/C16, fb5f9af C15, 1cc49f7 C15, 8762e98 C14); one more is recorded as a known finding (C15: a C-string literal operand makes the macro panic inside syn 1); see KNOWN_FINDINGS.txt and DESIGN.md section 5.",
+    "notes": "Eleven genuine defects were repaired by fix: commits in /repo (12857a3 C05, adad8bc C15, d8b5a10 C14, afb8dd7 C01, d743b69 C15/C16, fb5f9af C15, 1cc49f7 C15, 8762e98 C14, 66989f9 C15, 675249b+1fa463c C15, dfba8b7 C15); one more is recorded as a known finding (C15: a C-string literal operand makes the macro panic inside syn 1); see KNOWN_FINDINGS.txt and DESIGN.md section 5.",
 }
 json.dump(m, open(os.path.join(ROOT, "MANIFEST.json"), "w"), indent=1)
 print("checks=%d not_applicable=%d" % (len(checks), len(na)))
